@@ -66,7 +66,7 @@ Step ==
      ELSE
        /\ beh' = beh /\ gf' = (gf \/ racy)
        /\ advN' = IF e.ev = "Advance" THEN advN + 1 ELSE advN
-       /\ closeAt' = IF e.ev = "Close" THEN advN ELSE closeAt
+       /\ closeAt' = IF e.ev = "Close" /\ closeAt < 0 THEN advN ELSE closeAt     \* a second Close call changes nothing
        /\ rep' = IF e.ev = "Reply" /\ e.ok THEN [rep EXCEPT ![e.c] = Append(@, e.r)] ELSE rep
        /\ CASE e.ev = "Dial" ->
                  LET C1 == [cs EXCEPT ![e.c] = [NoC EXCEPT !.st = "wait", !.since = advN]]
